@@ -999,7 +999,8 @@ class CallMixin(object):
                 return join(*([x for _, x in d.entries] + [default]))
             # decided lookup returns the value; else add the default
             cs = [self.compare('==', k, args[0]) for k, _ in d.entries]
-            if cs and all(isinstance(c, Const) and not c.value for c in cs):
+            if cs and d.site is None and all(isinstance(c, Const) and not c.value
+                                             for c in cs):
                 return default
             for k, val in d.entries:
                 if isinstance(self.compare('==', k, args[0]), Const) and \
